@@ -570,6 +570,26 @@ static int c15_vbr_edges(int ch,long rate,float *lo,float *hi){
   return have;
 }
 static int c15_long_encode=0;
+/* deterministic pairwise stratum: one field of a RATEMANAGE2_SET argument at one of ten boundary values (the rest sane), followed by one request of the deprecated interface (or none):
+   7 fields x 10 values x 4 follow-ups, enumerated by k - settings that each interface validates on its own can combine into something neither checked */
+static void c15_pairwise(vorbis_info *vi,long k,rng_t *r,char *log,size_t logn){
+  static const double dv[10]={0,-1.5,1e-300,NAN,INFINITY,-INFINITY,1e9,0.5,1.0,-1e-9};
+  static const long lv[10]={0,-1,1,0x7fffffffL,-0x7fffffffL-1,64,100000,2,-64,1000};
+  int f=(int)(k%7), v=(int)((k/7)%10), follow=(int)((k/70)%4); size_t n=strlen(log);
+  struct ovectl_ratemanage2_arg a2; memset(&a2,0,sizeof a2); vorbis_encode_ctl(vi,OV_ECTL_RATEMANAGE2_GET,&a2);
+  a2.management_active=1; if(!(a2.bitrate_average_damping>0)) a2.bitrate_average_damping=1.5; if(a2.bitrate_limit_reservoir_bits<=0) a2.bitrate_limit_reservoir_bits=(long)rng_range(r,20000,400000);
+  switch(f){ case 0: a2.management_active=(int)lv[v]; break; case 1: a2.bitrate_limit_min_kbps=lv[v]; break; case 2: a2.bitrate_limit_max_kbps=lv[v]; break; case 3: a2.bitrate_limit_reservoir_bits=lv[v]; break;
+    case 4: a2.bitrate_limit_reservoir_bias=dv[v]; break; case 5: a2.bitrate_average_kbps=lv[v]; break; default: a2.bitrate_average_damping=dv[v]; break; }
+  int r1=vorbis_encode_ctl(vi,OV_ECTL_RATEMANAGE2_SET,&a2); if(!ret_ok15(r1)) res_viol("C15","ctl-return-domain","RATEMANAGE2_SET returned %d (pairwise field %d value %d)",r1,f,v);
+  int r2=1; struct ovectl_ratemanage_arg a1; memset(&a1,0,sizeof a1); vorbis_encode_ctl(vi,OV_ECTL_RATEMANAGE_GET,&a1);
+  long per=(long)(vi->rate>0?vi->rate:44100)*(vi->channels>0?vi->channels:2);
+  if(follow==1){ a1.bitrate_av_lo=a1.bitrate_av_hi=(long)(per*(1.0+rng_unit(r))); a1.bitrate_av_window=0.5; a1.bitrate_av_window_center=0.5; r2=vorbis_encode_ctl(vi,OV_ECTL_RATEMANAGE_AVG,&a1); }
+  else if(follow==2){ a1.bitrate_hard_min=(long)(per*0.5); a1.bitrate_hard_max=(long)(per*2.5); a1.bitrate_hard_window=0.2+rng_unit(r); r2=vorbis_encode_ctl(vi,OV_ECTL_RATEMANAGE_HARD,&a1); }
+  else if(follow==3){ a1.management_active=1; a1.bitrate_hard_min=0; a1.bitrate_hard_max=(long)(per*2.5); a1.bitrate_hard_window=0.5; a1.bitrate_av_lo=a1.bitrate_av_hi=(long)(per*1.2); a1.bitrate_av_window=0.5; a1.bitrate_av_window_center=0.5; r2=vorbis_encode_ctl(vi,OV_ECTL_RATEMANAGE_SET,&a1); }
+  if(follow && !ret_ok15(r2)) res_viol("C15","ctl-return-domain","deprecated rate-management request %d returned %d",follow,r2);
+  res_count("pairwise_rate_management_cases",1); res_bucket("pairwise|field%d|value%d|follow%d|%s",f,v,follow,r1?"refused":"accepted");
+  if(n+60<logn) snprintf(log+n,logn-n," pairwise(field %d value %d -> %d, follow-up %d -> %d)",f,v,r1,follow,follow?r2:0);
+}
 static void case_c15(const drvargs_t *a,long id){
   rng_t r; rng_seed(&r,a->seed,15,(uint64_t)id); c15_long_encode=0;
   res_begin(id);
@@ -603,6 +623,8 @@ static void case_c15(const drvargs_t *a,long id){
       if((w<3 && (have&1)) || !(have&2)){ if(have&1){ q= w%3==0?lo: w%3==1?nextafterf(lo,-9.f):nextafterf(lo,9.f); res_count("vbr_edge_requests",1); res_bucket("edge|vbr|bottom%d",w%3); } }
       else { q= w%3==0?hi: w%3==1?nextafterf(hi,9.f):nextafterf(hi,-9.f); res_count("vbr_edge_requests",1); res_bucket("edge|vbr|top%d",w%3); } }
   }
+  if(id%9==1){ /* pairwise rate-management stratum (c15_pairwise): a set-up that succeeds, through either three-step call */
+    long kk=id/9; entry=(int)((kk/280)%2); ch=1+(int)(kk%2); rate=common[3+rng_below(&r,6)]; q=0.1f+0.1f*(float)rng_below(&r,8); bmax=bmin=-1; bnom=(long)(rate*ch*(1.0+rng_unit(&r))); }
   char desc[500]; snprintf(desc,sizeof desc,"entry=%s ch=%d rate=%ld q=%g br=%ld/%ld/%ld ctl:",entry==0?"setup_vbr":entry==1?"setup_managed":entry==2?"init":"init_vbr",ch,rate,(double)q,bmax,bnom,bmin);
   vorbis_info vi; vorbis_info_init(&vi);
   int ret;
@@ -626,7 +648,8 @@ static void case_c15(const drvargs_t *a,long id){
   if((ok && (entry<2||entry==4)) || carry){
     int focus= !carry && entry<2 && (id%9==1||id%9==4||id%9==7);   /* rate-management stratum: 6-16 such requests, then (below) about a second of audio so that the manager's state really evolves */
     if(focus){ c15_focus=1; res_count("rate_management_request_scripts",1); }
-    c15_ctl_script(&vi,&r,focus?6+(int)rng_below(&r,11):(int)rng_below(&r,7)+(carry||entry==4),"before setup_init",desc,sizeof desc);
+    if(focus && id%9==1) c15_pairwise(&vi,id/9,&r,desc,sizeof desc);
+    else c15_ctl_script(&vi,&r,focus?6+(int)rng_below(&r,11):(int)rng_below(&r,7)+(carry||entry==4),"before setup_init",desc,sizeof desc);
     c15_focus=0; if(focus){ struct ovectl_ratemanage2_arg g; memset(&g,0,sizeof g); if(vorbis_encode_ctl(&vi,OV_ECTL_RATEMANAGE2_GET,&g)==0 && g.management_active) c15_long_encode=1; }   /* long encode only when the manager will really run */
     ret=vorbis_encode_setup_init(&vi); res_eval(1);
     if(!ret_ok15(ret)) res_viol("C15","setup-init-return-domain","%d: %s",ret,desc);
